@@ -244,6 +244,25 @@ pub fn generate(rng: &mut Rng, tier: Tier, emit: &mut dyn FnMut(String)) {
             ops.push("s".into());
             emit(format!("conne {} {}", rng.below(2), ops.join(";")));
         }
+        // the event channel itself: its receiver is gone (a WELL-FORMED event breaks the connection: SendError), or it
+        // has one slot and nobody drains it (the second event blocks the reader: answers behind it are not read)
+        for i in 0..(if quick { 30 } else { 300 }) {
+            let mode = 1 + (i % 2);
+            let n = rng.range(1, 5) as usize;
+            let mut ops: Vec<String> = vec!["s".to_owned(); n];
+            if rng.bool() {
+                ops.push("r0".into());
+            }
+            for _ in 0..rng.range(1, 4) {
+                let b = rng.pick(&good).clone();
+                ops.push(format!("b{}", hex(&frame_bytes(0, -1, 0x0C, &b))));
+                if rng.bool() {
+                    ops.push("r0".into());
+                }
+            }
+            ops.push("s".into());
+            emit(format!("conne {}/{} {}", rng.below(2), mode, ops.join(";")));
+        }
     }
     // hints: long before the first tick; while a probe is in flight (stored, consumed afterwards); twice (one permit)
     for c in [
@@ -390,13 +409,14 @@ fn event_bodies() -> Vec<Vec<u8>> {
 }
 
 fn run_conn(wc: bool, ka: Option<(u64, u64)>, ops: &[&str], ctx: &mut Ctx) -> String {
-    run_conn_ev(wc, ka, false, ops, ctx)
+    run_conn_ev(wc, ka, None, ops, ctx)
 }
 
-fn run_conn_ev(wc: bool, ka: Option<(u64, u64)>, events: bool, ops: &[&str], ctx: &mut Ctx) -> String {
+fn run_conn_ev(wc: bool, ka: Option<(u64, u64)>, ev_mode: Option<u8>, ops: &[&str], ctx: &mut Ctx) -> String {
+    let events = ev_mode.is_some();
     let rt = runtime();
     rt.block_on(async {
-        let mut sim = ConnSim::new_ev(wc, ka.map(|(i, t)| (Duration::from_millis(i), Duration::from_millis(t))), events);
+        let mut sim = ConnSim::new_ev_mode(wc, ka.map(|(i, t)| (Duration::from_millis(i), Duration::from_millis(t))), ev_mode);
         settle().await;
         for op in ops {
             if !sim.op(op, ctx).await {
@@ -434,7 +454,7 @@ fn run_conn_ev(wc: bool, ka: Option<(u64, u64)>, events: bool, ops: &[&str], ctx
             if sim.events_seen.len() > sent_events.len() {
                 ctx.fail(format!("{} events forwarded, only {} well-formed EVENT frames were sent", sim.events_seen.len(), sent_events.len()));
             }
-            if sim.broken.is_none() && sim.events_seen.len() != sent_events.len() {
+            if ev_mode == Some(0) && sim.broken.is_none() && sim.events_seen.len() != sent_events.len() {
                 ctx.fail(format!("{} well-formed EVENT frames sent on a healthy connection, {} forwarded", sent_events.len(), sim.events_seen.len()));
             }
         }
@@ -670,6 +690,14 @@ fn run_kax(cfg: &str, n: usize, ctx: &mut Ctx) -> String {
                 n, horizon, interval, timeout
             ));
         }
+        // ORACLE: the KIND of the break - with a free stream id the probe is written and times out; with all 32768
+        // taken the probe itself is refused a stream id, which must end the router too (KeepaliveRequestError)
+        let want = if n >= 32768 { "KeepaliveRequestError" } else { "KeepaliveTimeout" };
+        if let Some(kind) = &sim.broken {
+            if kind != want {
+                ctx.fail(format!("{} requests in flight, silent peer: the connection broke with {} instead of {}", n, kind, want));
+            }
+        }
         for round in 0..2 {
             for k in 0..sim.futures.len() {
                 sim.poll_req(k, ctx);
@@ -706,8 +734,18 @@ pub fn run(case: &str, ctx: &mut Ctx) -> String {
         Some("conn") if (w.len() == 2 || w.len() == 3) && (w[1] == "0" || w[1] == "1") => {
             run_conn(w[1] == "1", None, &ops(w.get(2)), ctx)
         }
-        Some("conne") if (w.len() == 2 || w.len() == 3) && (w[1] == "0" || w[1] == "1") => {
-            run_conn_ev(w[1] == "1", None, true, &ops(w.get(2)), ctx)
+        Some("conne") if w.len() == 2 || w.len() == 3 => {
+            let cfg: Vec<&str> = w[1].split('/').collect();
+            let mode = match cfg.get(1) {
+                None => Some(0u8),
+                Some(m) => m.parse::<u8>().ok().filter(|m| *m <= 2),
+            };
+            match (cfg.first().copied(), mode) {
+                (Some(wc @ ("0" | "1")), Some(mode)) if cfg.len() <= 2 => {
+                    run_conn_ev(wc == "1", None, Some(mode), &ops(w.get(2)), ctx)
+                }
+                _ => "bad-case".to_owned(),
+            }
         }
         Some("kax") if w.len() == 3 => match w[2].parse::<usize>() {
             Ok(n) => run_kax(w[1], n, ctx),
